@@ -7,8 +7,8 @@ from .. import audiocommon as AC
 
 ID = "C05"
 LEVEL = "exploration"
-TIERS = {"quick": {"shards": 16, "budget_s": 25, "cases": 1500},
-         "thorough": {"shards": 16, "budget_s": 420, "cases": 80000}}
+TIERS = {"quick": {"shards": 16, "budget_s": 120, "cases": 1500},
+         "thorough": {"shards": 16, "budget_s": 900, "cases": 80000}}
 RULE = ("split() / AudioRegion.split() run on synthesized PCM (widths 1/2/4, 1-4 channels, rates 8..44100, window 1..80 "
         "samples, w*rate integral and non-integral, optional partial last window, all channel selectors, 4 modes) and on "
         "fully random PCM.  Oracle: end-to-end model ENERGY(struct+Fraction) per window -> SEG -> expected (start sample, "
